@@ -278,57 +278,57 @@ Section PolyJet.
         repeat split; try (apply pclean_ok; apply mul_ok; assumption).
         unfold Rdiv. rewrite Rinv_mult. reflexivity.
       - apply KEEP. intros y E. apply (un1_sound jp_neg jneg _ _ a y Hag); [|exact E].
-        intros [x dx] z (X1 & X2 & X3 & X4) Ez. set (ja := nth a js (0%R, 0%R)) in *. injection Ez as <-.
+        destruct (nth a js (0%R, 0%R)) as [va da] eqn:Eja. intros [x dx] z (X1 & X2 & X3 & X4) Ez. injection Ez as <-.
         cbn [good fst snd]. unfold jneg, jv, jd in *. cbn [fst snd].
         rewrite !pneg_sound, !pneg_ok, X3, X4. auto.
       - (* sqrt *)
         assert (Hh : rho (tatom h) = jv (jnode js (NSqrt h a))).
         { rewrite <- (head_final js (NSqrt h a) r). apply Ht. cbn [tnodes]. left. reflexivity. }
         apply KEEP. intros y E. apply (un1_sound (jp_sqrt h) jsqrt _ _ a y Hag); [|exact E].
-        intros [x dx] z (X1 & X2 & X3 & X4) Ez. set (ja := nth a js (0%R, 0%R)) in *.
+        destruct (nth a js (0%R, 0%R)) as [va da] eqn:Eja. intros [x dx] z (X1 & X2 & X3 & X4) Ez.
         unfold jp_sqrt in Ez. destruct (tatom_ok h) eqn:To; [|discriminate]. apply Some_inj_l in Ez. subst z.
         unfold tatom_ok in To. apply andb_true_iff in To as [T1 T2]. apply Nat.ltb_lt in T2.
         destruct (patom_sound rho unitb N _ T2) as [A1 A2].
         destruct (ppow_sound rho unitb N (tatom h) (-1) T2 (or_introl T1)) as [P1 P2].
         destruct (pconst_sound rho unitb N (1 # 2)) as [C1 C2].
-        unfold jops_node in Hh. cbn [eval_node] in Hh. unfold get in Hh.
+        unfold jops_node in Hh. cbn [eval_node] in Hh. unfold get in Hh. unfold jet in *. rewrite Eja in Hh.
         cbv beta iota delta [good fst snd]. unfold jsqrt, jv, jd, cl in *. cbv beta iota delta [fst snd] in *.
         assert (O1 : ok (pmul (pconst N (1 # 2)) (ppow N (tatom h) (-1))) = true) by (apply mul_ok; assumption).
         rewrite pclean_sound, (mul_sound _ dx), (mul_sound (pconst N (1 # 2))), A1, P1, C1, X4, Q2R_half by assumption.
         repeat split; try assumption; try exact Hh; try (apply pclean_ok; apply mul_ok; assumption).
-        unfold ja. rewrite Hh. change (-1)%Z with (- (1))%Z. rewrite powerRZ_neg', powerRZ_1.
+        rewrite Hh. change (-1)%Z with (- (1))%Z. rewrite powerRZ_neg', powerRZ_1.
         unfold Rdiv. rewrite Rinv_mult. ring.
       - (* exp *)
         assert (Hh : rho (tatom h) = jv (jnode js (NExp h a))).
         { rewrite <- (head_final js (NExp h a) r). apply Ht. cbn [tnodes]. left. reflexivity. }
         apply KEEP. intros y E. apply (un1_sound (jp_exp h) jexp _ _ a y Hag); [|exact E].
-        intros [x dx] z (X1 & X2 & X3 & X4) Ez. set (ja := nth a js (0%R, 0%R)) in *.
+        destruct (nth a js (0%R, 0%R)) as [va da] eqn:Eja. intros [x dx] z (X1 & X2 & X3 & X4) Ez.
         unfold jp_exp in Ez. destruct (tatom_ok h) eqn:To; [|discriminate]. apply Some_inj_l in Ez. subst z.
         unfold tatom_ok in To. apply andb_true_iff in To as [T1 T2]. apply Nat.ltb_lt in T2.
         destruct (patom_sound rho unitb N _ T2) as [A1 A2].
-        unfold jops_node in Hh. cbn [eval_node] in Hh. unfold get in Hh.
+        unfold jops_node in Hh. cbn [eval_node] in Hh. unfold get in Hh. unfold jet in *. rewrite Eja in Hh.
         cbv beta iota delta [good fst snd]. unfold jexp, jv, jd, cl in *. cbv beta iota delta [fst snd] in *.
         rewrite pclean_sound, (mul_sound _ dx), A1, X4 by assumption.
         repeat split; try assumption; try exact Hh; try (apply pclean_ok; apply mul_ok; assumption).
-        unfold ja. rewrite Hh. reflexivity.
+        rewrite Hh. reflexivity.
       - (* pow *)
         assert (Hh : rho (tatom h) = jv (jnode js (NPow h a q f))).
         { rewrite <- (head_final js (NPow h a q f) r). apply Ht. cbn [tnodes]. left. reflexivity. }
         apply KEEP. intros y E. apply (un1_sound (jp_pow h q) (fun j => jpow j (Q2R q)) _ _ a y Hag); [|exact E].
-        intros [x dx] z (X1 & X2 & X3 & X4) Ez. set (ja := nth a js (0%R, 0%R)) in *.
+        destruct (nth a js (0%R, 0%R)) as [va da] eqn:Eja. intros [x dx] z (X1 & X2 & X3 & X4) Ez.
         unfold jp_pow in Ez. destruct (tatom_ok h) eqn:To; [|discriminate].
         cbv beta iota delta [fst snd] in Ez. destruct (pinv unitb x) as [ai|] eqn:Ei; [|discriminate]. apply Some_inj_l in Ez. subst z.
         destruct (pinv_sound rho unitb x ai Ei) as [I1 I2].
         unfold tatom_ok in To. apply andb_true_iff in To as [T1 T2]. apply Nat.ltb_lt in T2.
         destruct (patom_sound rho unitb N _ T2) as [A1 A2].
         destruct (pconst_sound rho unitb N q) as [C1 C2].
-        unfold jops_node in Hh. cbn [eval_node] in Hh. unfold get in Hh.
+        unfold jops_node in Hh. cbn [eval_node] in Hh. unfold get in Hh. unfold jet in *. rewrite Eja in Hh.
         cbv beta iota delta [good fst snd]. unfold jpow, jv, jd, cl in *. cbv beta iota delta [fst snd] in *.
         assert (O1 : ok (pmul (patom N (tatom h)) ai) = true) by (apply mul_ok; assumption).
         assert (O2 : ok (pmul (pconst N q) (pmul (patom N (tatom h)) ai)) = true) by (apply mul_ok; assumption).
         rewrite pclean_sound, (mul_sound _ dx), (mul_sound (pconst N q)), (mul_sound (patom N (tatom h))), A1, C1, I1, X3, X4 by assumption.
         repeat split; try assumption; try exact Hh; try (apply pclean_ok; apply mul_ok; assumption).
-        unfold ja. rewrite Hh. reflexivity.
+        rewrite Hh. reflexivity.
       - discriminate.
       - (* cut *)
         destruct (nth_error ps a) as [[[pp dp]|]|] eqn:Ea; try discriminate.
